@@ -95,6 +95,15 @@ func uncommitted(s site, mut string, orig, tampered *lib.Bundle) (bool, string) 
 		return true, "DeclaredV0Classes is hashed as a sorted list: its order is not committed"
 	case strings.HasPrefix(n, ".Classes[]<Cairo0>"):
 		return true, "Cairo 0 class definitions are not verified against their hash (VerifyClassHashes skips them)"
+	case n == ".Classes[]<Sierra>.Program" || strings.HasPrefix(n, ".Classes[]<Sierra>.Program[]") || n == ".Classes[]<Sierra>.Abi":
+		return true, "SierraClass.Hash() reads the precomputed ProgramHash / AbiHash, not Program / Abi themselves (both adapters compute the two hashes from the definition)"
+	case strings.HasPrefix(n, ".Classes[]<Sierra>.Compiled"):
+		if malformedDeclaredCompiled(tampered) && orig.Block.ProtocolVersion < "0.14.1" {
+			// storeCasmHashMetadataV1 hashes the compiled class of every declared class: a compiled class on which
+			// that hash cannot be computed must make Store REJECT the block (as the code is, it panics: known finding)
+			return false, ""
+		}
+		return true, "the compiled (CASM) class is never compared with the compiled class hash the state diff declares"
 	case n == ".Classes" && mut == "addextra":
 		return true, "class definitions that the state diff does not declare are outside every block commitment"
 	}
@@ -131,10 +140,34 @@ var (
 	reDeployAny  = regexp.MustCompile(`^field:\.Block\.Transactions\[\]<Deploy v[01]>\.(ContractAddressSalt|ContractAddress|ClassHash|ConstructorCallData|Version)(\[\])?:`)
 	reDeclareV0F = regexp.MustCompile(`^field:\.Block\.Transactions\[\]<Declare v0>\.(ClassHash|SenderAddress|MaxFee|Nonce)(\[\])?:`)
 	reLongVer    = regexp.MustCompile(`^field:\.Block\.ProtocolVersion:wrapP(bump)?$`)
+	reClassWrap  = regexp.MustCompile(`^field:\.Classes\[\]<Sierra>\.SemanticVersion:wrapPtag(bump)?$`)
 )
 
 const panicSig = "block-verification-panics-on-field-missing-for-its-version"
 const panicWhat = "SanityCheckNewHeight panics with a nil pointer dereference, instead of returning an error, on a block in which a field that the declared (transaction or protocol) version requires is absent — e.g. a transaction whose version is switched so that MaxFee / CompiledClassHash / resource bounds are missing, or a nil-ed field; neither sync nor p2p sync recovers, so the node process dies"
+
+const classWrapSig = "sierra-class-version-wraps-mod-p"
+const classWrapWhat = "core.SierraClass.Hash() commits felt.SetBytes(\"CONTRACT_CLASS_V\" + SemanticVersion), which reduces modulo the field prime, and nothing limits the length of SemanticVersion (sn2core.AdaptSierraClass / p2p2core copy it from the wire): replacing the SemanticVersion \"0.1.0\" of a new class's definition by a 39-byte string \"0.1.0.\"+33 bytes (or \"0.1.1.\"+33 bytes) with the same value mod P behind the tag keeps the class hash, so core.VerifyClassHashes, SanityCheckNewHeight and Store accept the block with the tampered definition and persist it (served by starknet_getClass as contract_class_version and to p2p peers, whose check passes for the same reason)"
+
+const casmPanicSig = "store-panics-on-malformed-compiled-class"
+const casmPanicWhat = "Blockchain.Store panics inside its write batch (blockchain/statebackend/casm_metadata.go storeCasmHashMetadataV1 -> core.CasmClass.Hash -> core.SegmentedBytecodeHash) on a block of protocol < 0.14.1 that passes SanityCheckNewHeight and every check of Store, when the compiled (CASM) class of a class it declares is malformed: bytecode shorter than its bytecode_segment_lengths add up to (slice bounds out of range), or no compiled class at all (nil pointer dereference; starknetdata/feeder passes nil for a class whose compiled class has the deprecated format). The compiled class comes from the feeder and is verified against nothing (the declared compiled class hash is never recomputed), so any feeder answer reaches this code; neither sync's verifier task nor p2p sync recovers, so the node process dies"
+
+// malformedDeclaredCompiled: does the bundle declare a Sierra class whose compiled class makes CasmClass.Hash panic?
+func malformedDeclaredCompiled(b *lib.Bundle) bool {
+	for h := range b.SU.StateDiff.DeclaredV1Classes {
+		c, ok := b.Classes[h].(*core.SierraClass)
+		if !ok {
+			continue
+		}
+		// on a deep copy, as StoreOn offers it: Go slices up to the CAPACITY, and a tampered slice may keep a larger one
+		cc := lib.DeepCopy(c).(*core.SierraClass)
+		_, panicked, _ := lib.Try(func() error { _ = cc.Compiled.Hash(core.HashVersionV2); return nil })
+		if panicked {
+			return true
+		}
+	}
+	return false
+}
 
 const oldRootSig = "new-backend-opens-state-at-supplied-old-root"
 
@@ -153,6 +186,8 @@ func knownRootCause(tc tamperCase, orig *lib.Bundle) (string, string) {
 	case reLongVer.MatchString(tc.Name) && len(tc.Bundle.Block.ProtocolVersion) >= 32:
 		return "long-protocol-version-wraps-mod-p",
 			"the block hash commits felt.SetBytes(ProtocolVersion), which reduces modulo the field prime, while ParseBlockVersion ignores everything after the third part: a 40-byte version string with the same value mod P (same or bumped version prefix) gives the same block hash, passes CheckBlockVersion and is persisted"
+	case reClassWrap.MatchString(tc.Name):
+		return classWrapSig, classWrapWhat
 	case strings.HasPrefix(tc.Name, "add:declared-v1:") && strings.Contains(tc.Name, "without-definition") && tc.Bundle.Block.ProtocolVersion >= "0.14.1":
 		return declNoDefSig, declNoDefWhat
 	case tc.Name == "field:.SU.OldRoot:zero":
@@ -258,13 +293,13 @@ func errClass(err error) string {
 	switch {
 	case strings.HasPrefix(s, "panic:"):
 		return "panic"
-	case strings.Contains(s, "malformed block"):
+	case strings.Contains(s, "malformed block"), strings.Contains(s, "malformed compiled class"):
 		return "malformed" // (proposed fix: the recovered nil dereference)
 	case strings.Contains(s, "block hashes do not match"):
 		return "su-blockhash"
 	case strings.Contains(s, "does not match state update's NewRoot"):
 		return "su-newroot"
-	case strings.Contains(s, "cannot verify class hash"):
+	case strings.Contains(s, "cannot verify class hash"), strings.Contains(s, "sierra class version is"):
 		return "class-hash"
 	case strings.Contains(s, "len of transactions"):
 		return "tx-receipt-len"
@@ -525,6 +560,13 @@ func rehashCases(g *lib.ChainGen, idx int) []tamperCase {
 		feltInc(c.Block.GlobalStateRoot)
 		feltInc(c.SU.NewRoot)
 		add("root", "declared state root changed (header and state update), block hash recomputed", c)
+	}
+	{
+		// only the HEADER's root: the hash is consistent with the header, the state update still carries the real
+		// root (which the state check compares) — nothing but the header / state-update cross check stops it
+		c := b.Clone()
+		feltInc(c.Block.GlobalStateRoot)
+		add("header-root-only", "the header's GlobalStateRoot changed, the state update's NewRoot kept, block hash recomputed", c)
 	}
 	{
 		c := b.Clone()
@@ -867,7 +909,9 @@ func runTask(f lib.Flags, res *lib.Result, task chainTask, only *replay) {
 					// Not stored, but not a rejection either: sync does not recover, the node dies.
 					res.Hit("rejected-by-panic:" + tc.Name)
 					rp.Note = trunc(r.stack, 1200)
-					if riskyCase(tc.Name) && strings.Contains(r.err.Error(), "nil pointer dereference") {
+					if strings.HasPrefix(tc.Name, "field:.Classes[]<Sierra>.Compiled") && malformedDeclaredCompiled(tc.Bundle) {
+						violate(casmPanicSig, fmt.Sprintf("%s (%s; block %d, format %s, version %s, backend %s): %v", casmPanicWhat, tc.Detail, pos, format, valid.Block.ProtocolVersion, backend, r.err), rp)
+					} else if riskyCase(tc.Name) && strings.Contains(r.err.Error(), "nil pointer dereference") {
 						// the one known cause: a field the (tampered) version needs is absent
 						violate(panicSig, fmt.Sprintf("%s (%s; block %d, format %s, backend %s): %v", panicWhat, tc.Detail, pos, format, backend, r.err), rp)
 					} else {
